@@ -52,8 +52,10 @@ type ProxyParams struct {
 	Filters      []FilterSpec // scripted stream filters on the listener (C14)
 	Acts         *RouteActs   // generated route actions (C17)
 	TimeoutProbe bool         // C17: requests whose upstream never answers measure the effective timeout
+	TryProbe     bool         // C17: ... and the per-try timeout (retry policy with a retry budget, every attempt silent)
 	NoRefuse     bool         // every host accepts connections
 	MutFilter    bool         // C01: filter f0 modifies the requests that ask for it (header "x-fm")
+	BoltGoAway   bool         // C11: the bolt listener announces the stop with a go-away frame (enable_bolt_goaway)
 	LocalErr     bool         // some requests ask for a service that has no route, or whose cluster has no host: MOSN answers itself
 	UpIdleS      int          // cluster idle_timeout in seconds (0 = not configured): MOSN closes idle upstream connections itself
 	ShutdownMs   int          // C11: graceful stop is requested at this instant (0 = never)
@@ -112,7 +114,12 @@ func DrawProxyParams(ch *sim.Choices, prop string) ProxyParams {
 	if autoAllowed(prop) && ch.Chance("params", "auto", 1, 3) {
 		p.Auto = true
 		p.Protos = nil
-		for _, x := range autoProtos {
+		ap := autoProtos
+		if prop == "C07" {
+			// (plain traffic only in this arm: the codecs that cannot build replies of their own can take part)
+			ap = append(append([]string(nil), autoProtos...), "tars", "dubbo-thrift")
+		}
+		for _, x := range ap {
 			if ch.Bool("params", "auto:"+x) {
 				p.Protos = append(p.Protos, x)
 			}
@@ -202,6 +209,7 @@ func DrawProxyParams(ch *sim.Choices, prop string) ProxyParams {
 		p.ShutdownMs = pickFrom(ch, "params", "shutdownat", []int{1, 3, 8, 20, 50, 100, 150, 250, 400})
 		p.DrainMs = pickFrom(ch, "params", "drain", []int{2000, 5000, 15000})
 		p.NConns = 1 + ch.Pick("params", "nconns11", 4)
+		p.BoltGoAway = ch.Bool("params", "boltgoaway")
 	}
 	if p.Proto == "tars" || p.Proto == "dubbo-thrift" {
 		// MOSN's tars codec cannot build replies of its own (Hijack / Reply "not support"): a request that
@@ -234,6 +242,14 @@ func DrawProxyParams(ch *sim.Choices, prop string) ProxyParams {
 			p.TimeoutProbe = true
 			p.RetryOn, p.NumRetries, p.TryMs, p.ProtoTimeout = false, 0, 0, false
 			p.GlobalMs = pickFrom(ch, "params", "globalms17", []int{0, 4000, 9000})
+			if ch.Chance("params", "tryprobe", 1, 3) {
+				// per-try timeout probe: every attempt meets a silent upstream and must be given up after the
+				// per-try timeout (well below any global timeout), until the retry budget is used up
+				p.TryProbe = true
+				p.RetryOn, p.NumRetries = true, 1+ch.Pick("params", "tryprobe_retries", 2)
+				p.TryMs = pickFrom(ch, "params", "tryprobe_ms", []int{300, 800})
+				p.MaxRetries = 0
+			}
 		}
 	}
 	return p
@@ -265,7 +281,7 @@ func protoChoices(prop string) []string {
 var autoProtos = []string{"bolt", "boltv2", "http1", "dubbo"}
 
 func autoAllowed(prop string) bool {
-	return os.Getenv("VERIF_PROTO") == "" && (prop == "C07" || prop == "C08" || prop == "C01" || prop == "C02")
+	return os.Getenv("VERIF_PROTO") == "" && (prop == "C07" || prop == "C08" || prop == "C01" || prop == "C02" || prop == "C10")
 }
 
 func (w *Proxy) protoOfConn(ci int) string { return w.P.Protos[ci%len(w.P.Protos)] }
@@ -341,6 +357,10 @@ func (w *Proxy) buildConfig() []byte {
 	}
 	w.lisAddr = "127.0.0.1:2045"
 	pcfg := J{"downstream_protocol": "X", "upstream_protocol": "X", "router_config_name": "r0", "extend_config": J{"sub_protocol": p.Proto}}
+	if p.BoltGoAway && (p.Proto == "bolt" || p.Proto == ppName) {
+		pcfg["extend_config"] = J{"sub_protocol": p.Proto, "enable_bolt_goaway": true}
+		w.S.Fault("w:bolt_goaway_enabled")
+	}
 	match := J{"headers": []J{{"name": "service", "value": ".*", "regex": true}}}
 	if p.Proto == "http1" {
 		pcfg = J{"downstream_protocol": "Http1", "upstream_protocol": "Http1", "router_config_name": "r0"}
@@ -519,6 +539,9 @@ func (w *Proxy) drawAction(ch *sim.Choices) peers.Action {
 		if p.Proto == "http1" && ch.Bool("work", "connclosehdr") {
 			a.Kind = "reply_connclose"
 		}
+		if (p.Proto == "bolt" || p.Proto == ppName) && ch.Bool("work", "upgoaway") {
+			a.Kind = "goaway_reply"
+		}
 	default:
 		a.Kind = "reply"
 		a.Err = true
@@ -573,6 +596,7 @@ func (w *Proxy) Setup() error {
 	}
 	w.setupClients()
 	w.setupGarbage()
+	w.setupEarlyLeavers()
 	for i := 0; i < p.IdleCloses; i++ {
 		at := pickFrom(ch, "work", "idlecloseat", []time.Duration{5 * time.Millisecond, 50 * time.Millisecond, 150 * time.Millisecond, 400 * time.Millisecond, time.Second, 3 * time.Second})
 		rst := ch.Chance("work", "idlecloserst", 1, 4)
@@ -746,6 +770,14 @@ func (w *Proxy) final() {
 				// (a probe request of the first round that is still unanswered — its upstream connection was
 				// left mid-frame by a scripted fault — still counts against the limit)
 				if len(r.Replies) != 1 || r.Replies[0].Tok != r.Token {
+					w.finish()
+					return
+				}
+			}
+			if snap := cluster.GetClusterMngAdapterInstance().ClusterManager.GetClusterSnapshot(context.Background(), "c0"); snap != nil {
+				if cur := snap.ClusterInfo().ResourceManager().Requests().Cur(); cur != 0 {
+					// the first round itself left a unit behind: that is the conservation clause, not the threshold clause
+					w.S.Violate("C10", "resource_not_zero_at_idle:requests", "breaker resource requests = %d after the %d requests of the capacity probe were all answered (max %d)", cur, k, w.P.MaxReqs)
 					w.finish()
 					return
 				}
@@ -1275,10 +1307,16 @@ func (a *autoUp) OnData(c *sim.Conn, b []byte) {
 			u := w.newH2Upstream(a.host)
 			u.Start(c)
 			a.impl = u
-		case b[0] == 1 || b[0] == 2 || b[0] == 0xda || (b[0] == 0 && (w.P.Proto == "tars" || w.P.Proto == "dubbo-thrift")):
+		case b[0] == 1 || b[0] == 2 || b[0] == 0xda || (b[0] == 0 && w.hasLenPrefixedProto()):
 			proto := "bolt"
 			if b[0] == 0 {
-				proto = w.P.Proto
+				// both start with a 4 byte length; a dubbo-thrift frame goes on with the magic 0xdabc
+				proto = "tars"
+				if len(b) >= 6 && b[4] == 0xda && b[5] == 0xbc {
+					proto = "dubbo-thrift"
+				} else if len(b) < 6 && w.P.Proto == "dubbo-thrift" {
+					proto = "dubbo-thrift"
+				}
 			}
 			if b[0] == 2 {
 				proto = "boltv2"
@@ -1301,6 +1339,15 @@ func (a *autoUp) OnData(c *sim.Conn, b []byte) {
 	if a.impl != nil {
 		a.impl.OnData(c, b)
 	}
+}
+
+func (w *Proxy) hasLenPrefixedProto() bool {
+	for _, x := range w.P.Protos {
+		if x == "tars" || x == "dubbo-thrift" {
+			return true
+		}
+	}
+	return false
 }
 
 func (a *autoUp) OnClose(c *sim.Conn) {
@@ -1412,6 +1459,42 @@ func (w *Proxy) setupGarbage() {
 	}
 }
 
+// setupEarlyLeavers (C10): connections that are opened and closed again before a request — or, on an
+// auto-detect listener, even the protocol — is there: nothing but the connection accounting is at stake.
+func (w *Proxy) setupEarlyLeavers() {
+	s, ch, p := w.S, w.S.Ch, w.P
+	if w.Prop != "C10" || p.ShutdownMs > 0 || !ch.Bool("work", "earlyleavers") {
+		return
+	}
+	for i, n := 0, 1+ch.Pick("work", "nleavers", 3); i < n; i++ {
+		g := &peers.GarbageClient{S: s, Name: fmt.Sprintf("leaver%d", i), FinAfter: true}
+		// nothing, or the first bytes of what would be a request of the listener's protocol
+		prefix := []byte{}
+		switch p.Protos[ch.Pick("work", "leaverproto", len(p.Protos))] {
+		case "http1":
+			prefix = []byte("POST /x HT")
+		case "http2":
+			prefix = []byte("PRI * HTTP/2.0\r\n")
+		case "boltv2":
+			prefix = []byte{2, 1, 1, 0, 1}
+		case "dubbo":
+			prefix = []byte{0xda, 0xbb, 0xc2}
+		default:
+			prefix = []byte{1, 1, 0, 1, 1}
+		}
+		g.Payload = prefix[:ch.Pick("work", "leaverbytes", len(prefix)+1)]
+		g.Kind = fmt.Sprintf("early leaver, %d bytes", len(g.Payload))
+		at := time.Duration(ch.Pick("work", "leaverat", 200)) * time.Millisecond
+		if at+time.Millisecond > w.lastSend {
+			w.lastSend = at + time.Millisecond
+		}
+		s.At(at, "leaver:"+g.Name, func() {
+			s.Fault("w:connection_closed_before_any_request")
+			g.Start(func(pe sim.Peer) *sim.Conn { return w.N.Connect(w.lisAddr, g.Name, pe) })
+		})
+	}
+}
+
 // maxPlannedMessage: the size of the largest ordinary request or scripted response of the run.
 func (w *Proxy) maxPlannedMessage() int {
 	m := 0
@@ -1446,7 +1529,10 @@ func (w *Proxy) drawVerdicts(r *peers.ReqRec) string {
 		if f.Phase < 0 || !ch.Chance("work", "fverdict", 1, 3) {
 			continue
 		}
-		v := pickFrom(ch, "work", "fverdictkind", []string{"hijack", "stop", "terminate", "hijackbody", "direct", "rematch", "rechoose", "hijack"})
+		v := pickFrom(ch, "work", "fverdictkind", []string{"hijack", "stop", "terminate", "hijackbody", "direct", "rematch", "rechoose", "hijack", "sendstop"})
+		if v == "sendstop" && !f.Send {
+			v = "continue" // only a filter that is also a send filter can stop the send chain
+		}
 		if v == "rematch" && f.Phase == 2 {
 			// a re-match requested in the last receive phase: the proxy re-matches "only at the AfterRoute
 			// phase", the pass of the requesting filter's phase ends there and the request goes on
@@ -1469,6 +1555,17 @@ func (w *Proxy) c17RequestExtras(r *peers.ReqRec, hdrs *[]peers.KV, protoTimeout
 		return
 	}
 	if !p.TimeoutProbe {
+		return
+	}
+	if p.TryProbe {
+		if ch.Chance("work", "neverans", 2, 3) {
+			r.Script = []peers.Action{{Kind: "never"}} // (the last action repeats for every further attempt)
+			r.Extra["try_probe"] = "1"
+		} else {
+			// the neighbours are plain exchanges: a scripted close or reset on a shared connection would end
+			// a probed attempt early for a reason of its own
+			r.Script = []peers.Action{{Kind: "reply", Delay: time.Duration(ch.Pick("work", "delay", 4)) * time.Millisecond}}
+		}
 		return
 	}
 	if ch.Chance("work", "hdrtimeout", 1, 2) {
